@@ -39,8 +39,11 @@ def valid_placement(t, k, hz, H):
     s = spec.sched(t)
     if not t.optional:
         return spec.task_timing(t, hz, H)
-    k = -spec.past_point(t)
-    un = [t._start == -k, t._end == -k]
+    pp = spec.parking(t)
+    if pp is None:
+        # no single conventional point: the library's own rule for a task that is not scheduled is the placement rule
+        return If(s, spec.task_timing(t, hz, H), And(*t.get_z3_assertions()))
+    un = [t._start == pp, t._end == pp]
     if type(t).__name__ == "VariableDurationTask":
         un.append(t._duration == 0)
     return If(s, spec.task_timing(t, hz, H), And(*un))
@@ -392,14 +395,24 @@ def fresh_consts(A, tasks, pb, extra_known=()):
     """the auxiliary unknowns of an assertion set: every constant that is not a task / horizon / parameter unknown"""
     from psvc.runner import _consts_in_order
 
-    known = {"horizon"}
+    # the user-level unknowns are taken from the objects themselves (whatever the library calls its z3 constants);
+    # extra_known may give names or z3 constants
+    known_ids = {pb._horizon.get_id()}
     for t in tasks:
-        known.update({f"{t.name}_start", f"{t.name}_end", f"{t.name}_duration", f"{t.name}_scheduled"})
-    known.update(extra_known)
+        for attr in ("_start", "_end", "_duration", "_scheduled"):
+            v = getattr(t, attr, None)
+            if isinstance(v, z3.ExprRef):
+                known_ids.add(v.get_id())
+    known_names = set()
+    for k in extra_known:
+        if isinstance(k, z3.ExprRef):
+            known_ids.add(k.get_id())
+        else:
+            known_names.add(k)
     out = []
     for c in _consts_in_order(A):
         n = c.decl().name()
-        if n in known or n.startswith("P_"):
+        if c.get_id() in known_ids or n in known_names or n.startswith("P_"):
             continue
         out.append(c)
     return out
